@@ -17,6 +17,9 @@ CHECKS = {
     "C07": dict(cat="translation_validation", tech="symbolic execution of the dense boundary assembler and of the potential assembler with one uninterpreted kernel on free geometry; entrywise polynomial identities with UFs (cvc5/z3)",
                 text="Boundary matrices between two disjoint grids (single and double layer; Laplace, Helmholtz, modified Helmholtz) are proved equal, entry by entry and for every geometry / kernel value, to the potential of each trial basis function evaluated at map_to_point_cloud's points and tested by quadrature, on 1-2 x 1-2 element grids (4-5 thorough), orders 1-2 (3).",
                 ref="3/C07"),
+    "C11": dict(cat="other", tech="path exploration of the topology routines with symbolic unbounded vertex ids (z3 LIA) + symbolic execution of geometry/refinement with symbolic coordinates (NRA with sqrt atoms, z3/cvc5)",
+                text="Bounded symbolic verification: shared-edge/vertex detection, adjacency rows, element-to-element counts and edge enumeration are decided for EVERY vertex numbering of two (three for counts, thorough) elements; geometric quantities for every non-degenerate triangle; refinement/barycentric children have 1/4 resp. 1/6 of the parent's oriented area for all vertex coordinates; derived tables of 8 base meshes are cross-checked concretely (auxiliary).",
+                ref="3/C11"),
     "C12": dict(cat="other", tech="symbolic execution of the rule constructors (z3 terms) + SMT (LIA path exploration for unbounded orders, LRA over all polynomials with symbolic coefficients, NRA for Duffy region maps)",
                 text="Bounded symbolic verification: lookups decided for every integer order (all paths of the real lookup code), exactness decided for every polynomial of the stated degree for all 20 triangle / 30 Gauss orders and Duffy orders 2..4 (5 thorough), region maps for all 1-D nodes in (0,1), remaps for every point. unsat = holds for all values within these bounds.",
                 ref="3/C12"),
